@@ -68,6 +68,10 @@ pub struct Msg {
     /// after the last chunk keep the send handle and wait in poll_reset (resolves on reset or connection end)
     #[serde(default)]
     pub watch_reset: bool,
+    /// after the message was finished (END_STREAM submitted) wait this many yields, then call send_reset(code):
+    /// whatever is still unsent must be discarded
+    #[serde(default)]
+    pub reset_after_end: Option<(usize, u32)>,
 }
 
 pub const BAD_FIELDS: &[(&str, &str)] = &[("connection", "close"), ("keep-alive", "1"), ("proxy-connection", "x"), ("transfer-encoding", "chunked"), ("upgrade", "h2c"), ("te", "gzip"), ("te", "trailers, deflate")];
@@ -277,9 +281,12 @@ fn gen_msg(t: &mut Tape, focus: Focus, allow_big: bool) -> Msg {
         trailers: if t.chance(1, 4) { Some(t.below(4)) } else { None },
         eos_on_head: t.chance(1, 2),
         chunks,
-        end,
+        end: end.clone(),
         bad: if focus == Focus::Resets && t.chance(1, 12) { 1 + t.below(BAD_FIELDS.len()) as u8 } else { 0 },
         watch_reset: focus == Focus::Faults && t.chance(1, 5),
+        // (Resets focus: a reset of a message that is complete from the application's point of view but may still be
+        // waiting for window)
+        reset_after_end: if focus == Focus::Resets && end == EndKind::Clean && nch > 0 && t.chance(1, 6) { Some((t.below(30), if t.chance(3, 4) { t.below(14) as u32 } else { t.u32() })) } else { None },
     }
 }
 
@@ -475,7 +482,7 @@ pub fn gen_pair(tapes: &[Vec<u32>], focus: Focus) -> PairCase {
 }
 
 pub fn empty_msg() -> Msg {
-    Msg { nfields: 0, big: 0, sensitive: false, chunks: vec![], trailers: None, eos_on_head: true, end: EndKind::Clean, bad: 0, watch_reset: false }
+    Msg { nfields: 0, big: 0, sensitive: false, chunks: vec![], trailers: None, eos_on_head: true, end: EndKind::Clean, bad: 0, watch_reset: false, reset_after_end: None }
 }
 
 pub fn default_req(key: u32) -> Req {
@@ -702,6 +709,12 @@ async fn send_body(mut st: SendStream<SegBuf>, m: Msg, key: u32, side: Side, log
             Ok(()) => log.push(side, key, Api::SentData { len: 0, eos: true }),
             Err(e) => log.push(side, key, Api::SendErr { op: "send_data", err: err_info(&e) }),
         }
+    }
+    if let Some((d, code)) = m.reset_after_end {
+        yield_n(d).await;
+        st.send_reset(h2::Reason::from(code));
+        log.push(side, key, Api::SentReset { code });
+        return;
     }
     if m.watch_reset {
         // its own task (and task name): a reset wait on a stream that has finished sending
